@@ -29,12 +29,14 @@ HERE = os.path.dirname(os.path.abspath(__file__))
 
 def surface(F, prop):
     sets = json.load(open(os.path.join(HERE, 'p7_sets.json')))
-    prefs, excl = sets[prop]
+    prefs, excl = sets[prop][0], sets[prop][1]
+    contains = sets[prop][2] if len(sets[prop]) > 2 else []
     out = []
     for b in F.bodies.values():
-        if not b.focus or not b.fn.lstrip('<').startswith(tuple(prefs)) or any(e in b.fn for e in excl):
+        if not b.focus or any(e in b.fn for e in excl):
             continue
-        out.append(b)
+        if b.fn.lstrip('<').startswith(tuple(prefs)) or any(c in b.fn for c in contains):
+            out.append(b)
     return out
 
 
